@@ -143,6 +143,21 @@ class Rewriter:
             text = text[:m.start()] + self.pad("", dropped) + text[after + endoff:]
             self.count("R4 cfg dropped")
 
+    def local_macro_defs(self, text):
+        """R19: `macro_rules! name { .. }` items inside a body are dropped (uses need a //@macro rule)"""
+        pat = re.compile(r"macro_rules\s*!\s*(\w+)\s*\{")
+        while True:
+            m = pat.search(text)
+            if not m:
+                return text
+            if m.group(1) not in Rewriter.unit_macros:
+                raise ExtractError("local macro %s! has no //@macro rule" % m.group(1))
+            toks = tokenize(text[m.end() - 1:])
+            e = match_close(toks, 0)
+            end = m.end() - 1 + toks[e].end
+            text = text[:m.start()] + self.pad("", text[m.start():end]) + text[end:]
+            self.count("R19 local macro_rules! %s definition dropped" % m.group(1))
+
     def debug_guards(self, text):
         """R1: `let mut debug_on_return = scoped_debug_return!(..);` and `*debug_on_return = false;`"""
         pat = re.compile(r"let\s+mut\s+(\w+)\s*=\s*scoped_debug_return\s*!\s*\(")
@@ -187,9 +202,18 @@ class Rewriter:
             whole = text[m.start():end]
             repl = None
             stmt = False
+            if name == "macro_rules":
+                # R19: a macro defined inside the function body; its uses are rewritten by a //@macro rule
+                mname = re.match(r"\s*(\w+)", text[end:])
+                # form is `macro_rules! name { ... }`: our regex matched `macro_rules!` + the bracket AFTER the name?
+                raise ExtractError("macro_rules! inside a body must be deleted by local_macro_defs()")
             if name in Rewriter.unit_macros:
                 repl = Rewriter.unit_macros[name]
-                self.count("R2 unit macro %s!(..) -> %s" % (name, repl))
+                if "$" in repl:
+                    margs = split_top_commas(self.macros(inner))
+                    for k_, a_ in enumerate(margs, 1):
+                        repl = repl.replace("$%d" % k_, a_)
+                self.count("R2 unit macro %s!(..) -> %s" % (name, Rewriter.unit_macros[name]))
             elif name in DELETE_MACROS:
                 repl = ""
                 stmt = True
@@ -681,6 +705,7 @@ class Unit:
         body = rw.closure_wildcards(body)
         body = rw.discarded_option_map(body)
         body = rw.debug_guards(body)
+        body = rw.local_macro_defs(body)
         body = rw.macros(body)
         body = rw.tag_literals(body)
         if not opts.get("noabort"):
